@@ -133,11 +133,11 @@ class FakeDevice:
                         for _ in range(4):
                             await asyncio.sleep(0)
                 conn.sent.append(action if isinstance(action, str) else bytes(action))
-                if action == EOF:
+                if isinstance(action, str) and action == EOF:
                     conn.half_closed = True
                     if writer.can_write_eof():
                         writer.write_eof()
-                elif action == DROP:
+                elif isinstance(action, str) and action == DROP:
                     conn.closed = True
                     writer.close()
                     break
